@@ -13,7 +13,7 @@ use std::rc::Rc;
 pub static ENGINE: Engine = Engine {
     prop: "C06",
     level: "exploration",
-    rule: "every body T with <= N AST nodes over {X, Y, a, b, true, false, not, & | => <=>, if, exists/forall a|b, shadowing binders exists X / lfp X / gfp X, further binders lfp/gfp Y and Z (three distinct nested binders), counting >=1 <=1 =1}: the reference evaluates T on ALL points of the lattice of functions over the formula's free variables (16, or 256 with a third variable), decides monotonicity by brute force over all comparable pairs and computes all fixed, pre-fixed and post-fixed points; for monotone bodies the real `lfp X # T` / `mu` / `gfp` / `nu` must terminate within the fuel, be a fixed point, lie below every pre-fixed point (lfp) / above every post-fixed point (gfp) and equal the reference iteration. BDDEnv::fp: all 256 maps t on D={F,T,a,-a} x 4 starts with a call-counting closure: first element of the orbit fixed by t, exactly index+1 calls; cyclic orbits exhaust the fuel; strictly increasing chains of every length 1..65 over six variables need exactly that many applications. Many-round fixed points: k-bit counter reachability (2k+1 names, 2^k rounds, k = 1..6) and its gfp dual against a bit-vector reference. distinct = distinct (body, binder spelling) texts + distinct (map, start)",
+    rule: "every body T with <= N AST nodes over {X, Y, a, b, true, false, not, & | => <=>, if, exists/forall a|b, shadowing binders exists X / lfp X / gfp X, further binders lfp/gfp Y and Z (three distinct nested binders), counting >=1 <=1 =1}: the reference evaluates T on ALL points of the lattice of functions over the formula's free variables (16, or 256 with a third variable), decides monotonicity by brute force over all comparable pairs and computes all fixed, pre-fixed and post-fixed points; for monotone bodies the real `lfp X # T` / `mu` / `gfp` / `nu` must terminate within the fuel, be a fixed point, lie below every pre-fixed point (lfp) / above every post-fixed point (gfp) and equal the reference iteration. BDDEnv::fp: all 256 maps t on D={F,T,a,-a} x 4 starts with a call-counting closure: first element of the orbit fixed by t, exactly index+1 calls; cyclic orbits exhaust the fuel; strictly increasing chains of every length 1..65 over six variables need exactly that many applications. Many-round fixed points: k-bit counter reachability (2k+1 names, 2^k rounds, k = 1..6) and its gfp dual against a bit-vector reference. Nested alternation: every nest of depth 2..3 (4) over binders X, Y, Z, W with every combination of lfp/gfp kinds and of four monotone templates per level, the innermost level referring to each outer binder in turn, plus sibling nests (two inner fixed points under one connective), against the reference semantics. distinct = distinct (body, binder spelling) texts + distinct (map, start)",
     assumptions: &["reference transformer semantics in harness/src/refl.rs; bodies whose nested fixed points diverge in the reference are out of scope (counted)", "fuel 20000 iterations where the lattice height is <= 9"],
     max_shards: 64,
     run,
@@ -398,7 +398,78 @@ fn check_many_rounds(ctx: &mut Ctx, k: usize, dual: bool) {
     }
 }
 
+/// Nested fixed points of alternating kinds. A nest of depth d has binders X, Y, Z, W; level i is
+/// `kind_i V_i # T_i(V_i, A_i, next)` with one of four monotone templates, literal A_i from a
+/// fixed cycle (a, b, -a, c) and `next` = the next level or — at the innermost level — one of the
+/// OUTER binders or a literal; and, at depth 3, a sibling form in which level 2 has TWO inner
+/// fixed points joined by & or |. Every combination of kinds and templates; judged by the
+/// reference semantics (names X, Y, Z, W, a, b, c stay within seven... so c is used only up to
+/// depth 3).
+fn nested_alternation(ctx: &mut Ctx) {
+    let binders = ["X", "Y", "Z", "W"];
+    let lit = |i: usize| match i % 3 {
+        0 => Ast::var("a"),
+        1 => Ast::var("b"),
+        _ => Ast::not(Ast::var("a")),
+    };
+    let tmpl = |t: usize, v: Ast, a: Ast, next: Ast| match t {
+        0 => Ast::bin(Bin::Or, v, Ast::bin(Bin::And, a, next)),
+        1 => Ast::bin(Bin::And, v, Ast::bin(Bin::Or, a, next)),
+        2 => Ast::bin(Bin::Or, a, Ast::bin(Bin::And, next, v)),
+        _ => Ast::bin(Bin::And, Ast::bin(Bin::Or, next, v), a),
+    };
+    let mut asts: Vec<Ast> = vec![];
+    let max_depth = if ctx.thorough() { 4 } else { 3 };
+    for d in 2..=max_depth {
+        for kinds in 0..(1usize << d) {
+            for ts in 0..(1usize << (2 * d)) {
+                // innermost `next`: each outer binder in turn, or a literal
+                for inner in 0..d {
+                    let innermost = if inner + 1 == d { lit(d) } else { Ast::var(binders[inner]) };
+                    let mut cur = innermost;
+                    for lvl in (0..d).rev() {
+                        let t = (ts >> (2 * lvl)) & 3;
+                        let body = tmpl(t, Ast::var(binders[lvl]), lit(lvl), cur);
+                        cur = Ast::fp(binders[lvl], (kinds >> lvl) & 1 == 1, body);
+                    }
+                    asts.push(cur);
+                }
+            }
+        }
+    }
+    // siblings: k0 X # A | ((k1 Y # T(Y, b, X)) op (k2 Z # T'(Z, -a, X | Y?))) — two inner fixed points
+    for kinds in 0..8usize {
+        for t1 in 0..4 {
+            for t2 in 0..4 {
+                for op in [Bin::And, Bin::Or] {
+                    for deep in [false, true] {
+                        let y = Ast::fp("Y", kinds & 2 != 0, tmpl(t1, Ast::var("Y"), lit(1), if deep { Ast::fp("W", kinds & 4 == 0, tmpl(t2, Ast::var("W"), lit(0), Ast::var("X"))) } else { Ast::var("X") }));
+                        let z = Ast::fp("Z", kinds & 4 != 0, tmpl(t2, Ast::var("Z"), lit(2), Ast::var("X")));
+                        asts.push(Ast::fp("X", kinds & 1 != 0, Ast::bin(Bin::Or, lit(0), Ast::bin(op, y, z))));
+                    }
+                }
+            }
+        }
+    }
+    let mut idx = 1u64 << 45;
+    for a in asts {
+        idx += 1;
+        if !ctx.mine(idx) {
+            continue;
+        }
+        let text = refl::pp(&a, refl::MINIMAL);
+        if refl::parse(&text).as_ref() != Ok(&a) {
+            panic!("machinery: round trip failed for {text}");
+        }
+        if crate::textsem::check_text(ctx, TAG, &a, &text).is_some() {
+            ctx.distinct(&text);
+            ctx.count("nested_alternating_fixed_points", 1);
+        }
+    }
+}
+
 fn run(ctx: &mut Ctx) {
+    nested_alternation(ctx);
     let mut idx = 0u64;
     let th = ctx.thorough();
     body_sweep(ctx, false, if th { 6 } else { 5 }, &mut idx);
@@ -448,7 +519,15 @@ fn replay(ctx: &mut Ctx, c: &Value) {
         check_fp_chain(ctx, c["n"].as_u64().unwrap_or(1) as usize);
         return;
     }
-    if c["part"].as_str() == Some("text") && c["text"].as_str().map(|t| t.contains("s0")).unwrap_or(false) {
+    if c["part"].as_str() == Some("text") && c["text"].as_str().map(|t| t.contains(" Y # ") || t.contains(" W # ")).unwrap_or(false) {
+        // nested alternation family
+        let text = c["text"].as_str().unwrap_or("");
+        if let Ok(a) = refl::parse(text) {
+            crate::textsem::check_text(ctx, TAG, &a, text);
+        }
+        return;
+    }
+    if c["part"].as_str() == Some("text") && c["text"].as_str().map(|t| t.contains("s0") || t.contains("b0")).unwrap_or(false) {
         let text = c["text"].as_str().unwrap_or("");
         if let Ok(a) = refl::parse(text) {
             crate::textsem::check_text_big(ctx, TAG, &a, text);
